@@ -17,6 +17,22 @@ RULE = ("[plus path spellings: relative, with ./.. components, Path objects, lea
         "source with >=1 block; distinct by scenario")
 ASSUMPTIONS = ["the exists()/open race is OS behaviour, not modelled; paths are abstract ids in the model"]
 KINDS = ["absent", "tdf", "nontdf", "empty", "dir"]
+# file (and directory) NAMES that some machinery treats specially — glob patterns, format strings, shell and URL syntax, options,
+# case and unicode normalisation, trailing blanks/dots, very long names: to open()/exists() each is just a name
+NAMES = ["keep.tdf", "walk[1].tdf", "trial[a-c].tdf", "[abc].tdf", "a*b.tdf", "*.tdf", "what?.tdf", "with space.tdf", " lead.tdf", "trail.tdf ",
+         "{x}.tdf", "{0}.tdf", "%s.tdf", "100%.tdf", "$HOME.tdf", "-rf.tdf", "--help", "a;b.tdf", "a#b.tdf", "a&b.tdf", "a|b.tdf", "it's.tdf", 'q"q.tdf',
+         "back\\slash.tdf", "new\nline.tdf", "tab\t.tdf", "dot.", ".hidden", "..tdf", "noext", "x.TDF", "KEEP.tdf", "caf\u00e9.tdf", "cafe\u0301.tdf",
+         "\u00fc\u00f1\u00ed.tdf", "\u65e5\u672c.tdf", "\U0001f600.tdf", "file:x.tdf", "http:%2F%2Fx.tdf", "a" * 200 + ".tdf", "~", "~user.tdf", "!bang.tdf", "(1).tdf", "a,b.tdf", "a=b.tdf", "@at.tdf"]
+
+
+def near_names(name):
+    """other names that a careless existence test would identify with `name`"""
+    import unicodedata
+    out = {name.lower(), name.upper(), name.swapcase(), name.strip(), name + " ", name.rstrip(".") , name + ".", unicodedata.normalize("NFC", name),
+           unicodedata.normalize("NFD", name), name.replace("[", "").replace("]", ""), name.replace("*", "x").replace("?", "x"), name.replace("[1]", "1"),
+           name.replace("[a-c]", "a"), name.replace("[a-c]", "b"), name.replace("[abc]", "a"), name.replace("\\", "/").split("/")[-1], name.replace("%2F", "_"), os.path.splitext(name)[0],
+           name + ".tdf", name.replace(" ", ""), name.replace("{x}", "").replace("{0}", "").replace("%s", "")}
+    return sorted(n for n in out if n and n != name and "/" not in n and n not in (".", "..") and len(n.encode()) < 250)
 
 
 def make_target(d, kind, rng, name):
@@ -213,15 +229,25 @@ def spellings(ctx):
                 os.makedirs(os.path.join(cwd, "~"))
             good, _ = C.start_file(rng, "n3")
             junk = bytes(rng.randrange(256) for _ in range(40))
-            for place in [os.path.join(home, "keep.tdf"), os.path.join(cwd, "keep.tdf"), os.path.join(cwd, "~", "keep.tdf"), os.path.join(cwd, "sub", "keep.tdf")]:
+            name = rng.choice(NAMES) if rng.random() < 0.6 else "keep.tdf"
+            if name == "~" and os.path.isdir(os.path.join(cwd, "~")):
+                name = "keep.tdf"
+            for place in [os.path.join(home, name), os.path.join(cwd, name), os.path.join(cwd, "~", name), os.path.join(cwd, "sub", name)]:
                 if os.path.isdir(os.path.dirname(place)) and rng.random() < 0.6:
                     open(place, "wb").write(rng.choice([good, junk, b""]))
+            # files whose names a careless existence test would take for the target (other case, normalisation, what a glob pattern
+            # matches, a stripped blank …): they are OTHER files — neither a reason to refuse nor anything to touch
+            for nn in near_names(name):
+                if rng.random() < 0.35:
+                    for dd in (cwd, os.path.join(cwd, "sub")):
+                        if rng.random() < 0.7 and not os.path.exists(os.path.join(dd, nn)):
+                            open(os.path.join(dd, nn), "wb").write(rng.choice([good, junk, b""]))
             src = os.path.join(d, "src.tdf")
             open(src, "wb").write(good)
             os.chdir(cwd)
             os.environ["HOME"] = home
             spelled = rng.choice(["~/keep.tdf", "keep.tdf", "./keep.tdf", "sub/../keep.tdf", "sub/keep.tdf", "./sub/./keep.tdf", "../work/keep.tdf",
-                                  os.path.join(cwd, "keep.tdf"), "~/../keep.tdf", "fresh.tdf", "~/fresh.tdf"])
+                                  os.path.join(cwd, "keep.tdf"), "~/../keep.tdf", "fresh.tdf", "~/fresh.tdf"]).replace("keep.tdf", name)
             as_path = rng.random() < 0.4
             literal = os.path.normpath(os.path.join(cwd, spelled))        # what open()/exists() mean by it (no ~ expansion)
             if spelled.startswith("~/..") and not os.path.isdir(os.path.join(cwd, "~")):
@@ -245,7 +271,8 @@ def spellings(ctx):
                 exc = e
             got = classify(exc)
             rep = dict(op=op, spelled=spelled, as_path=as_path, existed=existed, files=sorted(os.path.relpath(p, d) for p in before))
-            ctx.case(("spelling", op, spelled, as_path, existed, k), nontrivial=existed or spelled.startswith("~"), tags=(f"spelling:{op}:{'existing' if existed else 'free'}:{got}",),
+            ctx.case(("spelling", op, spelled, as_path, existed, k), nontrivial=existed or spelled.startswith("~"),
+                     tags=(f"spelling:{op}:{'existing' if existed else 'free'}:{got}", "name:" + ("plain" if name == "keep.tdf" else "special")),
                      sample=dict(op=op, target=spelled, existed=existed, outcome=got))
             changed = [os.path.relpath(p, d) for p, b in before.items() if not os.path.exists(p) or open(p, "rb").read() != b]
             if changed:
